@@ -396,6 +396,29 @@ def _strip_conversions(t):
     return t
 
 
+def _while_conditions_differ(mism):
+    """Every mismatch pairs terms whose while-loops have the same bodies and initial values but different conditions, the code's condition
+    reading the loop state in another way (len(acc) instead of a counter): equal only by an invariant of the loop."""
+    def whiles(t):
+        return [x for x in walk(("t", strip_all(t))) if head(x) == "fold" and x[1] == "while"]
+    any_ = False
+    for _, a, b in mism:
+        wa, wb = whiles(a), whiles(b)
+        if not wa or len(wa) != len(wb):
+            return False
+        for x, y in zip(wa, wb):
+            if x == y:
+                continue
+            # ('fold', 'while', depth, cond, inits, body..., updates): same apart from condition / counter bookkeeping?
+            if x[3] == y[3]:
+                return False
+            reads_len = any(head(z) == "call" and strip(z[1]) == ("glob", "builtins.len") for z in walk(("t", x[3])))
+            if not reads_len:
+                return False
+            any_ = True
+    return any_
+
+
 def _conversions_only(eq, mism):
     """Every mismatch disappears when value conversions (str(x), int(x), ...) are read as the identity."""
     try:
@@ -467,6 +490,10 @@ def check_equiv(rep, rule, construct, what, code, spec, where="", eq=None, assum
         # which this analysis does not know: not decided
         if _conversions_only(eq, mism):
             rep.require(False, f"{construct}: differs from the specification only by value conversions (str / int / float / list ...), whose effect depends on run-time types; cannot decide [{rule}]")
+            return None
+        if _while_conditions_differ(mism):
+            rep.require(False, f"{construct}: a while loop is controlled by another quantity than in the specification (a length instead of a counter, ...); whether both run the same number of rounds "
+                               f"needs an argument about the loop that this comparison does not make; cannot decide [{rule}]")
             return None
         desc, a, b = mism[0]
         eq.leaf_eq(a, b)
